@@ -2,6 +2,7 @@ package props
 
 import (
 	"bufio"
+	"encoding/hex"
 	"encoding/json"
 	"fmt"
 	"os"
@@ -13,6 +14,7 @@ import (
 	"sync/atomic"
 	"syscall"
 	"time"
+	"unicode/utf8"
 
 	"github.com/glebziz/fs_db/pkg/verif"
 
@@ -55,6 +57,54 @@ type crashDump struct {
 	Keys []string          `json:"keys"`
 	Vals map[string]string `json:"vals"` // key -> description "tag/len sum"
 	Err  string            `json:"err,omitempty"`
+}
+
+// keys that are not valid UTF-8 would be rewritten by encoding/json: they travel as hex
+func encK(k string) string {
+	if utf8.ValidString(k) && !strings.HasPrefix(k, "hex:") {
+		return k
+	}
+	return "hex:" + hex.EncodeToString([]byte(k))
+}
+
+func decK(k string) string {
+	if h, ok := strings.CutPrefix(k, "hex:"); ok {
+		if b, err := hex.DecodeString(h); err == nil {
+			return string(b)
+		}
+	}
+	return k
+}
+
+type crashDumpJSON crashDump
+
+func (d crashDump) MarshalJSON() ([]byte, error) {
+	w := crashDumpJSON{Err: d.Err, Vals: map[string]string{}}
+	for _, k := range d.Keys {
+		w.Keys = append(w.Keys, encK(k))
+	}
+	for k, v := range d.Vals {
+		w.Vals[encK(k)] = v
+	}
+	return json.Marshal(w)
+}
+
+func (d *crashDump) UnmarshalJSON(b []byte) error {
+	var w crashDumpJSON
+	if err := json.Unmarshal(b, &w); err != nil {
+		return err
+	}
+	*d = crashDump{Err: w.Err}
+	for _, k := range w.Keys {
+		d.Keys = append(d.Keys, decK(k))
+	}
+	if w.Vals != nil {
+		d.Vals = map[string]string{}
+		for k, v := range w.Vals {
+			d.Vals[decK(k)] = v
+		}
+	}
+	return nil
 }
 
 type crashOut struct {
@@ -773,6 +823,12 @@ func c04Chain(tier string, seed int64, idx int, scratch string) rt.CaseResult {
 	applied := make([][]seqrun.Step, nclients) // per client: everything that took effect so far (with reopen markers)
 	for ci := range keysets {
 		keysets[ci] = []string{fmt.Sprintf("c%d-a", ci), fmt.Sprintf("c%d-b", ci), fmt.Sprintf("c%d-c", ci)}
+		if !grpc {
+			// the inline client takes any bytes as a key: one key per client that is not valid UTF-8
+			// (two of them differ only in such bytes), one that ends in NUL bytes
+			keysets[ci][1] = fmt.Sprintf("c%d-caf\xe9-\xff\xfe%c", ci, 0x80+ci)
+			keysets[ci][2] = fmt.Sprintf("c%d-c\x00\x00", ci)
+		}
 	}
 	var trail []map[string]any
 	for g := 0; g < gens; g++ {
